@@ -163,7 +163,7 @@ class Prop:
             'and as enum, text lower/upper case, binary of full and shorter length, str/int mmsi) through '
             'encode_dict with `type`, encode_dict with `msg_type`, and create()+encode_msg; the produced sentences are '
             'decoded again and every given field is compared with its expected value (exact / quantised per the '
-            'standard); each call compared with the Lean model; non-trivial = a message was produced')
+            'standard); each call compared with the Lean model; non-trivial = a message was produced ; multi-sentence results also decoded in reverse order and read back through IterMessages / NMEAQueue behind the remains of a message that lost its middle sentence')
     assumptions = ['scaled inputs have at most 6 decimals so that float(v)*k is exact enough: IEEE rounding inside the '
                    'converters is modelled in exact arithmetic (validated exhaustively on <= 18-bit fields)']
 
